@@ -65,7 +65,10 @@ fn check_clauses(spec: &str) -> CaseResult {
     let f: Vec<&str> = spec.split('|').collect();
     let (special, pos, order) = (f[1], f[2].parse::<usize>().unwrap_or(0), f[3]);
     let mut clauses = vec!["Gamma, max-g FROM Lib2".to_string(), "Delta, min-d FROM Lib3".to_string()];
-    let (sp_clause, sp_use, lib1) = if special == "class" {
+    let (sp_clause, sp_use, lib1) = if special == "repeat" {
+        // a second clause for a module that another clause imports from already (X.680 13.16 allows it): nothing is lost
+        ("Epsilon, eps-v FROM Lib2", "k Epsilon, j INTEGER (0..eps-v)", "Unused ::= NULL")
+    } else if special == "class" {
         ("MY-CLASS FROM Lib1", "k MY-CLASS.&id", "MY-CLASS ::= CLASS { &id INTEGER UNIQUE, &Type } WITH SYNTAX { &Type IDENTIFIED BY &id }")
     } else {
         ("Ext{} FROM Lib1", "k Ext {INTEGER}", "Ext {X} ::= SEQUENCE { x X }")
@@ -74,7 +77,7 @@ fn check_clauses(spec: &str) -> CaseResult {
     let user = format!("User DEFINITIONS AUTOMATIC TAGS ::= BEGIN\nIMPORTS {};\nA ::= SEQUENCE {{ g Gamma, d Delta, i INTEGER (min-d..max-g), {sp_use} }}\nEND\n", clauses.join(" "));
     let libs = vec![
         format!("Lib1 DEFINITIONS AUTOMATIC TAGS ::= BEGIN\n{lib1}\nEND\n"),
-        "Lib2 DEFINITIONS AUTOMATIC TAGS ::= BEGIN\nGamma ::= BOOLEAN\nmax-g INTEGER ::= 7\nEND\n".to_string(),
+        "Lib2 DEFINITIONS AUTOMATIC TAGS ::= BEGIN\nGamma ::= BOOLEAN\nmax-g INTEGER ::= 7\nEpsilon ::= OCTET STRING\neps-v INTEGER ::= 9\nEND\n".to_string(),
         "Lib3 DEFINITIONS AUTOMATIC TAGS ::= BEGIN\nDelta ::= NULL\nmin-d INTEGER ::= 1\nEND\n".to_string(),
     ];
     let mut srcs = libs.clone();
@@ -89,7 +92,22 @@ fn check_clauses(spec: &str) -> CaseResult {
     match project(&gen).ok().and_then(|p| p.module("user").cloned()) {
         Some(m) => {
             let uses: Vec<String> = m.uses().iter().map(|u| u.replace(' ', "")).collect();
+            if special == "repeat" {
+                // all symbols imported from Lib2, over however many use lines, each exactly once
+                let mut syms: Vec<String> = vec![];
+                for u in uses.iter().filter(|u| u.contains("super::lib2::")) {
+                    let tail = u.rsplit("super::lib2::").next().unwrap_or("");
+                    syms.extend(tail.trim_matches(|c| c == '{' || c == '}').split(',').filter(|x| !x.is_empty()).map(|x| x.to_string()));
+                }
+                syms.sort();
+                if syms != ["EPS_V", "Epsilon", "Gamma", "MAX_G"] {
+                    discs.push(Disc::new(key("lib=lib2-twice"), format!("symbols imported from Lib2 over all use lines: {syms:?}, expected EPS_V, Epsilon, Gamma, MAX_G\nuse lines: {uses:?}\n{dump}\n--- generated ---\n{gen}")));
+                }
+            }
             for (lib, want) in [("lib2", "{Gamma,MAX_G}"), ("lib3", "{Delta,MIN_D}")] {
+                if special == "repeat" && lib == "lib2" {
+                    continue;
+                }
                 let line = uses.iter().find(|u| u.contains(&format!("super::{lib}::")));
                 if line.map_or(true, |l| !l.ends_with(&format!("super::{lib}::{want}"))) {
                     discs.push(Disc::new(key(&format!("lib={lib}")), format!("expected `use super::{lib}::{want}`, use lines: {uses:?}\n{dump}\n--- generated ---\n{gen}")));
@@ -396,7 +414,7 @@ impl Prop for C12 {
         }
         // several IMPORTS clauses of which one needs the wildcard (an information object class, a parameterized symbol):
         // the other clauses still name exactly their symbols, wherever the special clause stands
-        for special in ["class", "parameterized"] {
+        for special in ["class", "parameterized", "repeat"] {
             for pos in 0..3usize {
                 for order in ["user-first", "user-last"] {
                     out.push(Case { mods: stub.clone(), order: vec![0], single_source: false, wildcard: false, shared: false, assoc: false, capture: false, xexpand: format!("clauses|{special}|{pos}|{order}") });
